@@ -22,6 +22,7 @@ import OFV.Proofs.C08Rot
 import OFV.Proofs.C08Iter
 import OFV.Proofs.C08Fock
 import OFV.Proofs.C08Car
+import OFV.Proofs.C08Maj
 
 namespace OFV.C08
 open OFV OFV.Spec OFV.Spec.C08 OFV.Model.C08 OFV.C08P
@@ -231,5 +232,28 @@ theorem fermion_generator_sound (j a t s : Nat) (ha : a = 0 ∨ a = 1) :
     simp [evalW, evalWM, termMel, termMelM, actFTerm, actMTerm, actF, actM, hb, hc, hj, hj1, ht,
       GQ.sgn, GQ.ipow] <;>
     decide +kernel
+
+/-- **`get_majorana_operator(FermionOperator)` is sound, at full strength**: for every
+FermionOperator `A` (actions 0 / 1; any number of terms, any term length, repeated indices, any
+complex coefficients — `MajoranaOperator.__iadd__` does not prune, so no tolerance hypothesis), the
+MajoranaOperator built by `_fermion_operator_to_majorana_operator` denotes the same endomorphism of
+Fock space (products by `_merge_majorana_terms`, sums by `+=`). -/
+theorem get_majorana_operator_sound (A : Model.Op) (hv : ∀ e ∈ A, ∀ f ∈ e.1, f.2 < 2) :
+    evM (fermionToMajorana A) = Proofs.C03.fockInterp.evalOp A :=
+  evM_fermionToMajorana A hv
+
+/-- … hence the same matrix elements in the shared Spec (`Spec.applyM` vs `Spec.melF`) -/
+theorem get_majorana_operator_mel (A : Model.Op) (hv : ∀ e ∈ A, ∀ f ∈ e.1, f.2 < 2) (s t : Nat) :
+    SV.coeff (applyM (fermionToMajorana A) s) t = melF A t s := by
+  rw [← evM_apply, evM_fermionToMajorana A hv, Proofs.C03.fock_evalOp_melF A hv]
+
+/-- non-vacuity / sanity: `a†_1 a_0` -/
+example : ∀ f ∈ ([(1, 1), (0, 0)] : Model.Term), f.2 < 2 := by decide
+
+/-- **Majorana products are operator products**: `MajoranaOperator.__mul__` (`mmul`, signs from
+`_merge_majorana_terms`) is composition of the denoted endomorphisms when the left factor has
+strictly increasing terms (which `MajoranaOperator.__init__` guarantees). -/
+theorem majorana_mul_hom (a b : MOp) (ha : SortedM a) : evM (mmul a b) = evM a * evM b :=
+  evM_mmul a b ha
 
 end OFV.C08
